@@ -1371,8 +1371,8 @@ def run(ctx):
     ctx.extra['source_facts'] = facts
     ctx.notes.append('forced partitions / permuted completion use an in-process executor (module attributes of navis.nbl.nblast_funcs / '
                      'synblast_funcs are replaced for the duration of a call); real spawn / pathos / multiprocessing pools run in the thorough tier only')
-    ctx.notes.append("nblast_smart(criterion='N') raises for every input under pandas 3 (read-only mask), serially as well: counted under "
-                     "serial_error, not a C09 matter")
+    ctx.notes.append("nblast_smart(criterion='N') used to raise for every input under pandas 3 (read-only mask; fixed in 521b15b): its cases "
+                     "now run through the same forced partitions as the other criteria; any call that raises serially is counted under serial_error")
     for kind, case in gen_cases(ctx):
         c = dict(case, kind=kind)
         ctx.case(c, nontrivial=True)
